@@ -159,7 +159,7 @@ CHECKS.update({
              "answered exactly when (T flag and identifier still in the window).",
              "bounded_append_spec, C17_window, C17_sa_mem_get, C17_sa_nodup, C17_dup_iff, C17_record; over whole histories: C17_history_window, "
              "C17_history_duplicate_rejected, C17_history_no_false_duplicate",
-             extra="the model's atomic recording step is checked against the real Node._record_answer under every source-line interleaving of 2-4 answering threads with <= 1-2 pre-emptions, followed by T-flagged repeats (tools/racelib.py) - a search, not a proof"),
+             extra="the recording step under concurrency is a second Coq model (Model/Record.v: the statements of Node._record_answer on _sent_answers regenerated from node.py by tools/translate.py, Link/LinkRecord.v by reflexivity) with C17_record_every_schedule (Props/C17Record.v: every schedule of two recording threads, any identifiers, any initial window: nothing raises, both identifiers recorded; inductive invariant) and C17_record_test_then_create_refuted; behind it the real Node._record_answer is run under every source-line interleaving of 2-4 answering threads with <= 1-2 pre-emptions, followed by T-flagged repeats (tools/racelib.py) - a search, not a proof"),
  "C18": node("C18", "stop: one DPR to every ready connection (none when forced), stopping flag; while stopping no timers fire, nothing is dialled, newcomers "
              "are closed unserved; DPA closes once output is flushed; stop-finish closes every connection.",
              "C18_dpr_to_ready, C18_quiet_while_stopping, C18_newcomers_refused, C18_all_closed, C18_close_after_dpa; over whole histories (Proofs/NodeH.v): "
